@@ -11,14 +11,14 @@ SPEC = {
             "length and fill characters from the grammar. Judged: TRUE/FALSE exactly per the relation; every proposed "
             "replacement is a valid tree for the argument's nonterminal satisfying the relation. distinct = distinct "
             "(predicate, argument strings, numeric args, outcome class)",
-    "minimum": {"quick": {"count_judged": 1000, "octal_judged": 500, "just_judged": 1000, "crop_judged": 300, "proposals_judged": 500},
+    "minimum": {"quick": {"count_judged": 1000, "octal_judged": 500, "just_judged": 1000, "crop_judged": 300, "proposals_judged": 500, "width_zero_judged": 50},
                 "thorough": {"count_judged": 20000, "octal_judged": 10000, "just_judged": 20000, "crop_judged": 6000}},
     "assumptions": ["calls outside a predicate's documented domain (non-crop just with len > width, extend_crop on non-homogeneous "
                     "strings, fill characters the nonterminal cannot derive) are executed but only recorded",
                     "R1 tree validity for proposals"],
 }
 
-TEXT_G = {"<start>": ["<rec>"], "<rec>": ["<field>;<num>"], "<field>": ["<c>", "<c><field>"], "<c>": ["a", "b", " ", "0", "\x00"],
+TEXT_G = {"<start>": ["<rec>"], "<rec>": ["<field>;<num>", "<nfield>;<num>"], "<field>": ["<c>", "<c><field>"], "<nfield>": ["", "<c><nfield>"], "<c>": ["a", "b", " ", "0", "\x00"],
           "<num>": ["<d>", "<d><num>"], "<d>": list("0123456789")}
 NUM_G = {"<start>": ["<octal_digits>=<decimal_digits>"], "<octal_digits>": ["<octal_digit>", "<octal_digit><octal_digits>"],
          "<octal_digit>": list("01234567"), "<decimal_digits>": ["<decimal_digit>", "<decimal_digit><decimal_digits>"],
@@ -125,9 +125,12 @@ def judge_just(ctx, graph, rng):
     s = rng.choice("ab 0") * L if homogeneous else "".join(rng.choice(["a", "b", " ", "0", "\x00"]) for _ in range(L))
     width = max(0, L + rng.choice([0, 0, 0, 1, 2, 4, -1, -2, -L]))
     fill = rng.choice(["a", " ", "0", "\x00", "b"])
-    t = parse_as(TEXT_G, "<field>", s)
+    nt = "<nfield>" if rng.random() < 0.4 else "<field>"     # <nfield> is nullable: width 0 is then inside the domain of the crop variants
+    if nt == "<nfield>" and rng.random() < 0.3:
+        width = 0
+    t = parse_as(TEXT_G, nt, s)
     ctx.ev()
-    wit = {"pred": name, "s": s, "width": width, "fill": fill}
+    wit = {"pred": name, "s": s, "width": width, "fill": fill, "nonterminal": nt}
     pred = {"ljust": P.LJUST_PREDICATE, "rjust": P.RJUST_PREDICATE, "ljust_crop": P.LJUST_CROP_PREDICATE, "rjust_crop": P.RJUST_CROP_PREDICATE,
             "extend_crop": P.EXTEND_CROP_PREDICATE, "crop": P.CROP_PREDICATE}[name]
     if name == "crop":
@@ -136,7 +139,7 @@ def judge_just(ctx, graph, rng):
         args = (t, width)
     else:
         args = (t, width, fill)
-    in_domain = not (name in ("ljust", "rjust") and L > width) and not (name in ("crop", "ljust_crop", "rjust_crop", "extend_crop") and width == 0)
+    in_domain = not (name in ("ljust", "rjust") and L > width) and not (name in ("crop", "ljust_crop", "rjust_crop", "extend_crop") and width == 0 and nt != "<nfield>")
     st, r = ctx.guarded(pred.evaluate, graph, *args, timeout=20)
     if st == "watchdog":
         return ctx.inconclusive("watchdog")
@@ -155,7 +158,7 @@ def judge_just(ctx, graph, rng):
     if o == "PROPOSAL":
         (k, v), = r.result.items()
         vs = tstr(v)
-        bad = m.valid_tree(v, "<field>", allow_open=False)
+        bad = m.valid_tree(v, nt, allow_open=False)
         if not bad and k.id != t.id:
             bad = "proposal is not for the argument tree"
         if not bad and len(vs) != width:
@@ -173,7 +176,9 @@ def judge_just(ctx, graph, rng):
             return ctx.violation(None, f"{name} proposal: {bad}", {**wit, "proposal": to_list(v)})
         ctx.count("proposals_judged")
     ctx.count("crop_judged" if name == "crop" else "just_judged")
-    ctx.held((name, L, width, fill if name not in ("crop", "extend_crop") else "", o), sample={**wit, "result": str(r)[:80]})
+    if width == 0:
+        ctx.count("width_zero_judged")
+    ctx.held((name, nt, L, width, fill if name not in ("crop", "extend_crop") else "", o), sample={**wit, "result": str(r)[:80]})
 
 
 def run(ctx):
